@@ -261,6 +261,73 @@ def _defaults(part):
                 part.violation("C02:default:Scalar(c):%s" % c, {"object": repr(s)})
 
 
+def _posc_defaults(part):
+    """every shipped category x every unit of its type: the category default re-expressed in that unit"""
+    with worlds.world("posc") as db:
+        for c in sorted(db.IterCategories()):
+            info = db.GetCategoryInfo(c)
+            qt = info.quantity_type
+            for v in db.GetUnits(qt):
+                e = db.Convert(qt, info.default_unit, v, info.default_value)
+                scale = max(abs(e), abs(db.Convert(qt, info.default_unit, v, 0.0)))
+                part.count("evaluations", 3)
+                part.count("default_cases")
+                for what, thunk in (
+                    ("Scalar(c, unit=v)", lambda: Scalar(c, unit=v)),
+                    ("FractionScalar(c, unit=v)", lambda: FractionScalar(c, unit=v)),
+                    ("Scalar(c).CreateCopy(unit=v)", lambda: Scalar(c).CreateCopy(unit=v)),
+                ):
+                    sn = "from mc import worlds\nfrom barril.units import *\nfrom barril.units import FractionScalar\nwith worlds.world('posc') as db:\n    c, v = %r, %r\n    o = %s\n    e = db.Convert(%r, %r, v, %r)\n    print(o, e)\n    assert abs(float(o.GetValue()) - e) <= 1e-12 * max(abs(e), 1.0)\n" % (c, v, what, qt, info.default_unit, info.default_value)
+                    try:
+                        o = thunk()
+                        val = float(o.GetValue())
+                        if not close(val, e, scale, TOL) or o.GetUnit() != v or o.GetCategory() != c:
+                            part.violation("C02:posc-default:%s:%s:%s" % (what, c, v), {"object": repr(o), "expected_value": e}, sn)
+                    except Exception as ex:
+                        part.violation("C02:posc-default:%s:%s:%s" % (what, c, v), {"raised": repr(ex)}, sn)
+
+
+def _warm_task(qts):
+    """Depth-2 histories: a prelude of queries another part of a program may have issued (unknown-quantity
+    objects asked for every unit label, rejected cross-type requests, lookups by category) and THEN the
+    scalar routes of every ordered pair, on the same (now warm) database."""
+    part = Part()
+    with worlds.world("posc") as db:
+        unknown_q = ObtainQuantity("<unknown>", "Unknown")
+        reps = {}
+        for u, i in db.unit_to_unit_info.items():
+            reps.setdefault(i.quantity_type, u)
+        for qt in qts:
+            units = db.GetUnits(qt)
+            other = next(r for t, r in reps.items() if t != qt and t != "Unknown")
+            for v in units:
+                preludes = (
+                    lambda: Scalar(unknown_q, 12.5).GetValue(v),
+                    lambda: Array(unknown_q, [12.5, 1.0]).GetValues(v),
+                    lambda: Array(unknown_q, np.array([12.5, 1.0])).GetValues(v),
+                    lambda: unknown_q.Convert(3.0, v),
+                    lambda: db.Convert("Unknown", "<unknown>", v, 1.0),
+                    lambda: db.Convert("Unknown", v, "<unknown>", 1.0),
+                    lambda: db.GetInfo("Unknown", v, fix_unknown=True),
+                    lambda: Scalar(1.0, other).GetValue(v),
+                    lambda: db.Convert(db.GetQuantityType(other), other, v, 1.0),
+                    lambda: Scalar(1.0, v, db.GetDefaultCategory(other)),
+                    lambda: ObtainQuantity(v, db.GetDefaultCategory(other)),
+                )
+                for f in preludes:
+                    part.count("prelude_operations")
+                    try:
+                        f()
+                    except Exception:
+                        part.count("prelude_operations_rejected")
+            for u in units:
+                dc = db.GetDefaultCategory(u)
+                for v in units:
+                    check_pair(part, db, qt, u, v, dc, full=False)
+                    part.count("warm_pairs")
+    return part
+
+
 def _dispatch(task):
     if task[0] == "own":
         p = Part()
@@ -270,6 +337,12 @@ def _dispatch(task):
         p = Part()
         _defaults(p)
         return p
+    if task[0] == "posc_defaults":
+        p = Part()
+        _posc_defaults(p)
+        return p
+    if task[0] == "warm":
+        return _warm_task(task[1])
     return _task(task[1])
 
 
@@ -278,13 +351,13 @@ def run(ctx):
         qts = sorted(db.GetQuantityTypes(), key=lambda q: -len(db.GetUnits(q)))
         n_pairs = sum(len(db.GetUnits(q)) ** 2 for q in qts)
     shards = [qts[i::48] for i in range(48)]
-    tasks = [("pairs", (s, ctx.thorough)) for s in shards if s] + [("own", None), ("defaults", None)]
+    tasks = [("pairs", (s, ctx.thorough)) for s in shards if s] + [("own", None), ("defaults", None), ("posc_defaults", None)] + [("warm", s) for s in shards if s]
     run_sharded(ctx, _dispatch, tasks)
     c = ctx.part.counters
     ctx.level = "exploration"
     ctx.rule = (
         "every ordered unit pair of every quantity type (%d incl. u == v) x %s x values %r through 16 routes compared with db.Convert; non-trivial = (pair, category) combinations with u != v; "
-        "outcomes = quantity types visited" % (n_pairs, "all categories of the type" if ctx.thorough else "the unit's default category (+ all categories on pairs from the category's default unit)", X)
+        "the four Scalar/Quantity routes again for every pair on a database warmed by 11 prelude queries per unit (unknown-quantity objects asked for that unit label, rejected cross-type requests); every shipped category x every unit: the default re-expressed; outcomes = quantity types visited" % (n_pairs, "all categories of the type" if ctx.thorough else "the unit's default category (+ all categories on pairs from the category's default unit)", X)
     )
     ctx.states = c.get("pair_category", 0)
     ctx.transitions = c.get("evaluations", 0)
@@ -292,6 +365,9 @@ def run(ctx):
         "pair_category_combinations": c.get("pair_category", 0),
         "own_unit_derived_states": c.get("own_unit_states", 0),
         "category_default_cases": c.get("default_cases", 0),
+        "warm_pairs": c.get("warm_pairs", 0),
+        "prelude_operations": c.get("prelude_operations", 0),
+        "prelude_operations_rejected": c.get("prelude_operations_rejected", 0),
         "alphabet": {"values": X, "containers": ["float", "int", "list", "tuple", "ndarray (len 0,1,4)", "list of tuples", "tuple of tuples"], "routes": ["Scalar.GetValue", "CreateCopy(unit)", "ChangeScalars", "Quantity.ConvertScalarValue", "Quantity.Convert", "db.Convert float/int/list/tuple/ndarray/exponent lists/by category", "Array.GetValues", "Array.CreateCopy(unit)", "FixedArray.IndexAsScalar", "FixedArray.ChangingIndex", "UnitSystemManager.ConvertToCurrent", "UnitSystemManager.ConvertScalarToCurrent", "FractionScalar.GetValue"]},
     }
     ctx.assumptions = [
